@@ -30,9 +30,23 @@ pub const ARCHIVE_HOST: &str = "noaa-nexrad-level2.s3.amazonaws.com";
 #[derive(Clone, Debug, PartialEq, Eq)]
 pub enum ReqKind {
     List { prefix: String, max_keys: Option<usize> },
+    /// a listing that also carries a `delimiter` parameter (keys below a delimiter are rolled up
+    /// into CommonPrefixes instead of being listed)
+    ListDelimited { prefix: String, max_keys: Option<usize>, delimiter: String },
     Get { key: String },
     /// Not something S3 would understand (unparsable URL, missing parameters).
     Bad(String),
+}
+
+impl ReqKind {
+    /// For buckets that hold no keys below the listed prefix's own level a delimiter changes
+    /// nothing: the listing is served as a plain one.
+    pub fn without_delimiter(&self) -> ReqKind {
+        match self {
+            ReqKind::ListDelimited { prefix, max_keys, .. } => ReqKind::List { prefix: prefix.clone(), max_keys: *max_keys },
+            k => k.clone(),
+        }
+    }
 }
 
 #[derive(Clone, Debug)]
@@ -326,6 +340,7 @@ pub fn parse_request(seq: u64, t_ms: i64, url: &str) -> Request {
         let mut prefix = None;
         let mut max_keys = None;
         let mut list_type = None;
+        let mut delimiter = None;
         let mut bad = None;
         for (k, v) in parsed.query_pairs() {
             match k.as_ref() {
@@ -335,6 +350,7 @@ pub fn parse_request(seq: u64, t_ms: i64, url: &str) -> Request {
                     Err(_) => bad = Some(format!("bad max-keys {}", v)),
                 },
                 "list-type" => list_type = Some(v.to_string()),
+                "delimiter" => delimiter = Some(v.to_string()),
                 _ => {}
             }
         }
@@ -342,6 +358,8 @@ pub fn parse_request(seq: u64, t_ms: i64, url: &str) -> Request {
             ReqKind::Bad(b)
         } else if list_type.as_deref() != Some("2") {
             ReqKind::Bad("list request without list-type=2".to_string())
+        } else if let Some(d) = delimiter.filter(|d| !d.is_empty()) {
+            ReqKind::ListDelimited { prefix: prefix.unwrap_or_default(), max_keys, delimiter: d }
         } else {
             ReqKind::List {
                 prefix: prefix.unwrap_or_default(),
